@@ -576,6 +576,16 @@ func c11Outputs(c *core.Ctx) {
 			}
 			judge("run", "next", "late", "onfailure", "onexit")
 			if req := h.lastRequestID(loc); req != "" && len(seen) == 0 {
+				if idx%3 == 0 {
+					// a retry whose re-executed step fails again, then a retry of THAT retry's
+					// record (a fresh process each time): kept outputs must survive both records
+					_, out, _ = h.run(60*time.Second, "retry", "--req="+req, loc)
+					judge("retry-that-fails-again", "late", "onfailure", "onexit")
+					if r2 := h.lastRequestID(loc); r2 != "" && r2 != req {
+						req = r2
+						c.Count("retries_of_a_retry", 1)
+					}
+				}
 				_ = os.WriteFile(gate, nil, 0644)
 				_, out, _ = h.run(60*time.Second, "retry", "--req="+req, loc)
 				judge("retry", "late", "onsuccess", "onexit")
@@ -611,6 +621,6 @@ func init() {
 				{Name: "outputs", Mode: "outputs", Shards: 12, Timeout: 60 * time.Minute},
 			}
 		},
-		Rule:        "Parameter strings are BUILT from the documented syntax (1-4 tokens: bare word, \"quoted value\" with \\\" escapes, NAME=value, NAME=\"quoted value\"; values from a pool with spaces, leading/trailing blanks, quotes inside and at the edges, '=', backslashes, unicode, empty, glob and shell characters, 2 kB), so the expected values are known by construction. strings pass: 24000 (400000) strings through dag.Load as start parameters or as the definition's defaults: DAG.Params, the exported $1..$n and $NAME, and the round trip retry/restart perform (reload with model.Params(recorded)). process pass: 96 (1500) cases with the real blackdagger binary: steps and handlers are probe child processes that dump the environment they see; start -p (as client.Start hands parameters over) or defaults, then a second run with other parameters and retry --req of the FIRST run, then restart; every probe must see exactly the given values. outputs pass: 88 (1200) cases: a producer child prints known bytes (sizes 0, 1, 2, 100, 4095-4097, 65535-65537, 100000; whitespace around/inside; quotes, = $ \\, unicode, shell characters; optionally also stderr), consumers (next step, a later step, onFailure/onSuccess/onExit handlers, the re-executed step of a retry) dump $CAPTURED which must equal the trimmed stdout; the producing run must end within 60 s. Non-trivial/distinct = distinct strings / cases.",
+		Rule:        "Parameter strings are BUILT from the documented syntax (1-4 tokens: bare word, \"quoted value\" with \\\" escapes, NAME=value, NAME=\"quoted value\"; values from a pool with spaces, leading/trailing blanks, quotes inside and at the edges, '=', backslashes, unicode, empty, glob and shell characters, 2 kB), so the expected values are known by construction. strings pass: 24000 (400000) strings through dag.Load as start parameters or as the definition's defaults: DAG.Params, the exported $1..$n and $NAME, and the round trip retry/restart perform (reload with model.Params(recorded)). process pass: 96 (1500) cases with the real blackdagger binary: steps and handlers are probe child processes that dump the environment they see; start -p (as client.Start hands parameters over) or defaults, then a second run with other parameters and retry --req of the FIRST run, then restart; every probe must see exactly the given values. outputs pass: 88 (1200) cases: a producer child prints known bytes (sizes 0, 1, 2, 100, 4095-4097, 65535-65537, 100000; whitespace around/inside; quotes, = $ \\, unicode, shell characters; optionally also stderr), consumers (next step, a later step, onFailure/onSuccess/onExit handlers, the re-executed step of a retry, and of a retry of that retry's record) dump $CAPTURED which must equal the trimmed stdout; the producing run must end within 60 s. Non-trivial/distinct = distinct strings / cases.",
 		Assumptions: []string{"'$' and backticks are not generated inside parameter values (environment and command substitution are documented features of start parameters)", "newlines inside a parameter are not generated; captured outputs stay below the kernel's 128 KiB per-string exec limit"}})
 }
